@@ -10,10 +10,21 @@ def main():
     sys.path.insert(0, snap)
     try:
         from harness import core
-        from harness.props import c04, c10, identity
+        import importlib
         ctx = core.Ctx("warm", "quick", 0)
-        for fn in (identity.warm, c10.warm, c04.warm):
-            fn(ctx)
+        for name in ("identity", "c10", "c04", "c05", "c06", "c15", "c16", "c17", "c09", "c12", "c14",
+                     "c08", "c11", "c13", "c19", "c20", "c07", "c18"):
+            try:
+                m = importlib.import_module("harness.props." + name)
+            except ImportError:
+                continue
+            fn = getattr(m, "warm", None)
+            if fn is None:
+                continue
+            try:
+                fn(ctx)
+            except Exception as ex:  # noqa: BLE001  (warming is best effort: checks rebuild what is missing)
+                print("warm %s: %r" % (name, ex))
     finally:
         build.cleanup(snap)
     print("setup ok")
